@@ -2,6 +2,7 @@ package main
 
 import (
 	"fmt"
+	"go/ast"
 	"strconv"
 	"go/token"
 	"go/types"
@@ -285,6 +286,14 @@ func (x *Exec) applySpec(st *State, fs *FuncSpec, names []string, args []Val, si
 		r := st.freshVal("r_"+sanitize(cc.label), sig.Results().At(i).Type())
 		res.L = append(res.L, r.L...)
 	}
+	if sig.Results().Len() == 1 && len(res.L) == 1 && leavesOf(sig.Results().At(0).Type())[0].Sort == "Bool" {
+		key := "rtrue:" + cc.label
+		cur, ok := st.ghostInt[key]
+		if !ok {
+			cur = "0"
+		}
+		st.ghostInt[key] = tIte(res.L[0], "(+ "+cur+" 1)", cur)
+	}
 	bindResults(vars, sig, fs.Results, res)
 	env2 := &Env{x: x, st: st, old: pre, vars: vars}
 	for _, c := range fs.Ens {
@@ -415,6 +424,9 @@ func (x *Exec) callFunction(st *State, f *ssa.Function, bindings []Val, args []V
 			}
 		}
 	}
+	if !inPkg && (strings.HasPrefix(f.String(), "(*sync.Mutex).") || strings.HasPrefix(f.String(), "(*sync.RWMutex).")) && len(args) == 1 && x.curCall != nil && len(x.curCall.Args) == 1 {
+		x.lockOp(st, f.String(), x.curCall.Args[0], args[0].L[0], pos)
+	}
 	if name == "verifAssert" || name == "verifAssume" {
 		g := args[0].L[0]
 		if name == "verifAssert" {
@@ -505,6 +517,7 @@ func (x *Exec) builtin(st *State, f *ssa.Builtin, c *ssa.CallCommon, args []Val,
 		x.notes = append(x.notes, "append allocates a fresh backing array (aliasing through spare capacity is not modelled)")
 		return Val{T: rt, L: []Term{obj, "0", nl}}
 	case "delete":
+		x.monitorAccess(st, c.Args[0], true, nil, nil, "true", pos)
 		x.mapDelete(st, args[0], args[1], describe(c.Args[0]), pos)
 		return Val{T: rt}
 	case "close":
@@ -560,7 +573,9 @@ func (x *Exec) runDefers(st *State, k func(*State)) {
 			x.builtin(st, f, c, d.args, c.Pos())
 			done = true
 		case *ssa.Function:
+			x.curCall = c
 			done, _ = x.callFunction(st, f, nil, d.args, c.Pos(), next)
+			x.curCall = nil
 		default:
 			if ci, ok := st.closures[d.fnv.L[0]]; ok {
 				done, _ = x.callFunction(st, ci.fn, ci.bindings, d.args, c.Pos(), next)
@@ -630,9 +645,31 @@ func (x *Exec) chanKey(v ssa.Value) string {
 	return ""
 }
 
+func (x *Exec) localNameOf(fn *ssa.Function, v ssa.Value) string {
+	for _, dr := range x.debugRefs[fn] {
+		if dr.X == v && !dr.IsAddr {
+			if id, ok := dr.Expr.(*ast.Ident); ok {
+				return id.Name
+			}
+		}
+	}
+	return ""
+}
+
 func (x *Exec) chanInvFor(st *State, chv ssa.Value, ch Val, v Val) Term {
 	key := x.chanKey(chv)
 	inv := x.prog.spec.ChanInvs[key]
+	if inv == nil {
+		fn := st.top().fn
+		if n := x.localNameOf(fn, chv); n != "" {
+			for f := fn; f != nil && inv == nil; f = f.Parent() {
+				if fs := x.prog.spec.Funcs[x.prog.relName(f)]; fs != nil {
+					inv = fs.LocalChanInv[n]
+				}
+			}
+			key = "local " + n
+		}
+	}
 	if inv == nil {
 		return "true"
 	}
@@ -648,6 +685,8 @@ func (x *Exec) recv(st *State, in *ssa.UnOp, ch Val) {
 		okT = x.d.FreshConst("rcvok", "Bool")
 	}
 	st.assume(tImp(okT, x.chanInvFor(st, in.X, ch, v)))
+	x.d.DeclareFun("uf_neverclosed_0", []string{"Ref"}, "Bool")
+	st.assume(tImp("(uf_neverclosed_0 "+ch.L[0]+")", okT))
 	if in.CommaOk {
 		z := zeroVal(et)
 		out := Val{T: in.Type()}
@@ -667,13 +706,23 @@ func (x *Exec) noteSend(st *State, chv ssa.Value, ch Val, v Val, cond Term, pos 
 		x.oblige(st, "chaninv", x.chanKey(chv), tImp(cond, g), x.spec.Props, "value sent satisfies the channel invariant", pos)
 	}
 	// ghost: count sends per channel key on this path
-	key := "sent:" + x.chanKey(chv)
+	ck := x.chanKey(chv)
+	if ck == "" {
+		if n := x.localNameOf(st.top().fn, chv); n != "" {
+			ck = "local." + n
+		}
+	}
+	key := "sent:" + ck
 	cur, ok := st.ghostInt[key]
 	if !ok {
 		cur = "0"
 	}
 	st.ghostInt[key] = tIte(cond, "(+ "+cur+" 1)", cur)
-	st.ghostInt["lastsent:"+x.chanKey(chv)] = v.L[0]
+	prev, ok := st.ghostInt["lastsent:"+ck]
+	if !ok {
+		prev = rnil
+	}
+	st.ghostInt["lastsent:"+ck] = tIte(cond, v.L[0], prev)
 }
 
 func (x *Exec) send(st *State, in *ssa.Send) {
@@ -704,6 +753,9 @@ func (x *Exec) selectStmt(st *State, b *ssa.BasicBlock, idx int, in *ssa.Select)
 			et := s.Chan.Type().Underlying().(*types.Chan).Elem()
 			v := st.freshVal("selrcv", et)
 			st.assume(tImp(tAnd(chosen, recvOk), x.chanInvFor(st, s.Chan, ch, v)))
+			// a receive from a channel that is never closed always yields a sent value
+			x.d.DeclareFun("uf_neverclosed_0", []string{"Ref"}, "Bool")
+			st.assume(tImp(tAnd(chosen, "(uf_neverclosed_0 "+ch.L[0]+")"), recvOk))
 			z := zeroVal(et)
 			for i := range v.L {
 				out.L = append(out.L, tIte(recvOk, v.L[i], z.L[i]))
@@ -717,6 +769,156 @@ func (x *Exec) selectStmt(st *State, b *ssa.BasicBlock, idx int, in *ssa.Select)
 // ---- locks (monitors) -------------------------------------------------------------------
 
 func (x *Exec) lockCheck(st *State, addr Term, t types.Type, what string, pos token.Pos, write bool) {}
+
+// monitorOf: is v the map held in a monitor-protected struct field? Returns the monitor.
+func (x *Exec) monitorOf(v ssa.Value) (*Monitor, *ssa.FieldAddr) {
+	u, ok := v.(*ssa.UnOp)
+	if !ok || u.Op != token.MUL {
+		return nil, nil
+	}
+	fa, ok := u.X.(*ssa.FieldAddr)
+	if !ok {
+		return nil, nil
+	}
+	stt := fa.X.Type().Underlying().(*types.Pointer).Elem()
+	owner := typeRelName(x.prog, stt)
+	fname := stt.Underlying().(*types.Struct).Field(fa.Field).Name()
+	for _, m := range x.prog.spec.Monitors {
+		if m.Owner != owner {
+			continue
+		}
+		for _, p := range m.Protects {
+			if p == fname {
+				return m, fa
+			}
+		}
+	}
+	return nil, nil
+}
+
+// mutexAddrOf: address term of the monitor's mutex in the same object as fa.
+func (x *Exec) mutexAddrOf(st *State, m *Monitor, fa *ssa.FieldAddr) Term {
+	obj := x.value(st, fa.X)
+	stt := fa.X.Type().Underlying().(*types.Pointer).Elem().Underlying().(*types.Struct)
+	for i := 0; i < stt.NumFields(); i++ {
+		if stt.Field(i).Name() == m.Mutex {
+			return extend(obj.L[0], []int{i})
+		}
+	}
+	panic(specErr{"monitor mutex field not found: " + m.Mutex})
+}
+
+// monitorAccess: obligations/assumptions for an access to a protected map.
+func (x *Exec) monitorAccess(st *State, mapv ssa.Value, write bool, k, v *Val, okT Term, pos token.Pos) {
+	m, fa := x.monitorOf(mapv)
+	if m == nil {
+		return
+	}
+	mu := x.mutexAddrOf(st, m, fa)
+	mode := st.held[mu]
+	need := "held"
+	okHeld := mode
+	if write {
+		need = "held exclusively"
+		okHeld = mode && st.heldW[mu]
+	}
+	goal := Term("false")
+	if okHeld {
+		goal = "true"
+	}
+	x.oblige(st, "lockheld", m.Owner+"."+m.Protects[0], goal, x.spec.Props, "access to "+m.Owner+"."+m.Protects[0]+" with "+m.Mutex+" "+need, pos)
+	if m.Inv != nil && k != nil && v != nil {
+		env := &Env{x: x, st: st, old: x.entry, vars: map[string]Val{"k": *k, "v": *v}, what: "monitor invariant " + m.Owner + "." + m.Protects[0]}
+		g := env.evalBool(m.Inv.Expr)
+		if write {
+			x.oblige(st, "monitorinv", m.Owner+"."+m.Protects[0], g, x.spec.Props, "entry stored in "+m.Protects[0]+" satisfies the monitor invariant: "+m.Inv.Text, pos)
+		} else {
+			st.assume(tImp(okT, g))
+		}
+	}
+	if write {
+		key := "writes:" + m.Owner + "." + m.Protects[0]
+		cur, ok := st.ghostInt[key]
+		if !ok {
+			cur = "0"
+		}
+		st.ghostInt[key] = "(+ " + cur + " 1)"
+	}
+}
+
+// lockOp models Lock/RLock/Unlock/RUnlock on a mutex at address mu.
+func (x *Exec) lockOp(st *State, name string, arg ssa.Value, mu Term, pos token.Pos) {
+	acquire := strings.HasSuffix(name, ".Lock") || strings.HasSuffix(name, ".RLock")
+	excl := strings.HasSuffix(name, ".Lock") || strings.HasSuffix(name, ".Unlock")
+	if acquire {
+		st.held[mu] = true
+		if excl {
+			st.heldW[mu] = true
+		}
+		// a monitor's protected state may have been changed by other threads: forget it
+		if fa, ok := arg.(*ssa.FieldAddr); ok {
+			stt := fa.X.Type().Underlying().(*types.Pointer).Elem()
+			owner := typeRelName(x.prog, stt)
+			fname := stt.Underlying().(*types.Struct).Field(fa.Field).Name()
+			for _, m := range x.prog.spec.Monitors {
+				if m.Owner != owner || m.Mutex != fname {
+					continue
+				}
+				obj := x.value(st, fa.X)
+				sst := stt.Underlying().(*types.Struct)
+				for i := 0; i < sst.NumFields(); i++ {
+					for _, p := range m.Protects {
+						if sst.Field(i).Name() != p {
+							continue
+						}
+						if mt, ok := sst.Field(i).Type().Underlying().(*types.Map); ok {
+							mref := st.loadIn(nil, "Ref", extend(obj.L[0], []int{i}))
+							dom, val, _, hasVal := mapSorts(mt)
+							st.storeLeaf(dom, extend(mref, []int{0}), x.d.FreshConst("mon", dom))
+							if hasVal {
+								st.storeLeaf(val, extend(mref, []int{1}), x.d.FreshConst("mon", val))
+							}
+							if _, seen := st.ghostInt["lockdom:"+owner+"."+p]; !seen {
+								// the table as found at the first acquisition in this function
+								st.ghostInt["lockdom:"+owner+"."+p] = st.loadIn(nil, dom, extend(mref, []int{0}))
+							}
+						}
+					}
+				}
+			}
+		}
+		return
+	}
+	// release
+	if !st.held[mu] {
+		x.oblige(st, "unlock", describe(arg), "false", x.spec.Props, "unlock of a mutex that is not held", pos)
+	}
+	if fa, ok := arg.(*ssa.FieldAddr); ok {
+		stt := fa.X.Type().Underlying().(*types.Pointer).Elem()
+		owner := typeRelName(x.prog, stt)
+		fname := stt.Underlying().(*types.Struct).Field(fa.Field).Name()
+		for _, m := range x.prog.spec.Monitors {
+			if m.Owner != owner || m.Mutex != fname {
+				continue
+			}
+			obj := x.value(st, fa.X)
+			sst := stt.Underlying().(*types.Struct)
+			for i := 0; i < sst.NumFields(); i++ {
+				for _, p := range m.Protects {
+					if sst.Field(i).Name() == p {
+						if mt, ok := sst.Field(i).Type().Underlying().(*types.Map); ok {
+							mref := st.loadIn(nil, "Ref", extend(obj.L[0], []int{i}))
+							dom, _, _, _ := mapSorts(mt)
+							st.ghostInt["unlockdom:"+owner+"."+p] = st.loadIn(nil, dom, extend(mref, []int{0}))
+						}
+					}
+				}
+			}
+		}
+	}
+	delete(st.held, mu)
+	delete(st.heldW, mu)
+}
 
 func (x *Exec) loadShared(st *State, addr Term, t types.Type, src ssa.Value) Val {
 	return st.loadVal(addr, t)
